@@ -526,12 +526,21 @@ func InstallTypesModels(m *interp.Machine, prog *load.Program) {
 					if owner := ownerID(fv.Recv); owner != "" && owner+".type" == o.ID {
 						return text, nil
 					}
-					m.Notes = append(m.Notes, interp.Note{Rule: "G-RENDER", Key: "foreign-qualifier@" + prog.Pos(pos), Pos: pos,
+					m.Notes = append(m.Notes, interp.Note{Rule: "G-RENDER", Key: "G-RENDER:foreign-qualifier", Pos: pos,
 						Msg: "a type is rendered with the package qualifier of a different variable (its import set may not contain the type's packages)"})
 					return text, nil
 				}
 			}
-			m.Notes = append(m.Notes, interp.Note{Rule: "G-RENDER", Key: how + "@" + prog.Pos(pos), Pos: pos,
+			// keyed by what is rendered and how, not by where: the same defect keeps its key when the
+			// expression moves between the template and a helper or its variables are renamed
+			class := "type"
+			switch {
+			case strings.HasPrefix(o.ID, "constraint:"):
+				class = "explicit-constraint-type"
+			case strings.HasSuffix(o.ID, ".type"):
+				class = "variable-type"
+			}
+			m.Notes = append(m.Notes, interp.Note{Rule: "G-RENDER", Key: "G-RENDER:" + how + ":" + class, Pos: pos,
 				Msg: "a go/types type reaches the output through " + how + " without the file's package qualifier (Var.packageQualifier): types from other packages are printed with their full path or unqualified"})
 			return text, nil
 		}
